@@ -176,6 +176,22 @@ func check(c *Case) (msg string, full bool, nontrivial bool) {
 			w.PartsOrder = c.Opts.PartsOrder
 		}
 	}
+	if len(c.Line)%3 == 1 {
+		// the option slices as an application may well hold them: views of one array (a parsed configuration
+		// line split in place), the first with room to spare behind it -- the room is the next option's
+		ex, ord, pe := c.Opts.FieldsExclude, c.Opts.FieldsOrder, w.PartsExclude
+		backing := make([]string, 0, len(ex)+len(ord)+len(pe)+8)
+		backing = append(append(append(backing, ex...), ord...), pe...)
+		if ex != nil {
+			w.FieldsExclude = backing[:len(ex)]
+		}
+		if ord != nil {
+			w.FieldsOrder = backing[len(ex) : len(ex)+len(ord)]
+		}
+		if pe != nil {
+			w.PartsExclude = backing[len(ex)+len(ord) : len(ex)+len(ord)+len(pe)]
+		}
+	}
 	if c.Opts.CustomFmt {
 		w.FormatFieldName = func(i interface{}) string { return fmt.Sprintf("<%s>:", i) }
 		w.FormatFieldValue = func(i interface{}) string { return fmt.Sprintf("[%s]", i) }
